@@ -16,7 +16,7 @@ ASSUMPTIONS = [
     "expected bits: memoryless = input; DPSK family = input minus the first symbol's group; OQPSK = in-phase bit of symbol i, quadrature bit of symbol i-1 (first quadrature output unconstrained); pi/4-QPSK = input",
     "comparison on bit values after rounding, dtype-agnostic; training-mode state carry-over is not judged",
 ]
-REQUIRED = ["roundtrip bits", "symbol count", "eval-mode state does not carry over"]
+REQUIRED = ["roundtrip bits", "symbol count", "eval-mode state does not carry over", "roundtrip after training-mode use + reset"]
 JOBS = {"quick": 4, "thorough": 16}
 TIMEOUT = {"quick": 900, "thorough": 3600}
 
@@ -143,6 +143,34 @@ def run_unit(ctx, u):
             ctx.ok("roundtrip bits", int(m_t.sum()))
         else:
             ctx.violation(f"{kc}|{ltag}|roundtrip bits|wrong bits", spec=s, bits=rows[0][:32], demodulated=got.flatten()[:32], expected=e_t.flatten()[:32])
+
+    # dirty history: the objects are first used in *training* mode (where schemes with memory do carry state,
+    # with odd and even symbol counts), then reset and switched to evaluation mode: the round trip must hold again
+    for ns_dirty in (1, 2, 3, 5):
+        if ns_dirty < min_syms:
+            continue
+        try:
+            mod.train()
+            dem.train()
+            yd = mod(torch.tensor([[rng.getrandbits(1) for _ in range(ns_dirty * b)]], dtype=torch.float32))
+            dem(yd)
+            if ns_dirty == 3:
+                dem(yd[..., : max(min_syms, 1)])  # a second, shorter burst
+        except Exception:  # noqa: BLE001 - training-mode behaviour itself is not judged
+            pass
+        modems.fresh(mod, dem)
+        row = [rng.getrandbits(1) for _ in range(5 * b)]
+        x = torch.tensor([row], dtype=torch.float32)
+        ctx.case(modems.cfg(s), "dirty", ns_dirty, tuple(row))
+        try:
+            out = dem(mod(x))
+            exp, mask = expected_bits(s, [row])
+            e_t = torch.tensor(exp, dtype=torch.float64)
+            m_t = torch.tensor(mask, dtype=torch.bool)
+            ok = tuple(out.shape) == tuple(e_t.shape) and bool(((out.to(torch.float64).round() == e_t) | ~m_t).all())
+            ctx.check(ok, "roundtrip after training-mode use + reset", f"{kc}|(B,L)|roundtrip after training-mode use + reset|wrong bits", spec=s, dirty_symbols=ns_dirty, bits=row, demodulated=out.flatten()[:20])
+        except Exception as e:  # noqa: BLE001
+            ctx.violation(f"{kc}|(B,L)|roundtrip after training-mode use + reset|raised:{type(e).__name__}", spec=s, error=str(e)[:200])
 
     # eval-mode: state must not carry over between calls (reset -> call -> call gives equal answers)
     row = [rng.getrandbits(1) for _ in range(6 * b)]
